@@ -7,9 +7,10 @@ CFG = dict(
          "an AbacoSource on a scripted packet producer incl. external-trigger packets, a LanceroSource on a scripted card; triggers firing (auto+edge, group "
          "trigger, err->FB coupling), LJH2.2+LJH3+OFF files written, the real RunClientUpdater status thread incl. its delayed save of the viper store, "
          "two StoreRawDataBlock archives, ConfigureTriggers / Projectors / WriteControl START-PAUSE-UNPAUSE-STOP / state label / comment / pulse lengths / "
-         "SendAllStatus / Stop). `kind trace`: hooks verifAcc/verifSync (build tag verif) log every access to the NAMED shared state (next frame number, "
+         "SendAllStatus / WriteComment / ReadComment / Stop; a QUIET phase of 2.6 s without requests while files are written, so that the status thread's delayed "
+         "save fires while core-loop status messages keep coming; a Triangle source with 2.5 s blocks, so that ONE block closes several 1-second trigger-rate periods). `kind trace`: hooks verifAcc/verifSync (build tag verif) log every access to the NAMED shared state (next frame number, "
          "external-trigger queue, block + segments, archive block, filled archive block, per-processor state, trigger state, broker connections / tables, "
-         "trigger-rate slices, writing state, viper store) and every synchronisation operation, with random yields at the hook sites; the canonicalised trace must "
+         "trigger-rate slices, writing state, viper store, the status thread's table of last messages) and every synchronisation operation, with random yields at the hook sites; the canonicalised trace must "
          "(1) pass the vector-clock analysis raceFree (else viol C17:race-<var>), (2) be a feasible linearisation, (3) be accepted by the ownership contracts of "
          "the skeleton (mkSpec; conformance). `kind race`: FAILING-SCHEDULE SEARCH ONLY — the same scenario in a child built once per run with `go build -race "
          "-tags verif` (verifPoint overlaid by a lock-free version, hooks quiet, random yields at all hook sites); every `WARNING: DATA RACE` is minimised to the "
@@ -53,7 +54,8 @@ MANIFEST = dict(
          "skeleton does not name is covered ONLY by the Go race detector, which is a search for a failing schedule, never the proof: no report is not evidence. "
          "Races found on the unchanged tree and repaired: block.nSamp written by every assembly goroutine (7ebfa00), Abaco reader loop vs block assembly on "
          "nextFrameNum / external-trigger queue / group frame timing (821fc6b), raw-data-block archive read by its writer while the core loop goes on (fd364a5), "
-         "viper store written by the status thread's save while PrepareRun reads it (76a28af).",
+         "viper store written by the status thread's save while PrepareRun reads it (76a28af), ComputeState (ReadComment on the client's goroutine) reading the "
+         "core loop's running external-trigger counter (caab03b).",
     technique="Lean 4: vector-clock soundness, permission-token ownership, thread-local typing => all interleavings; tied to the Go code by logged-trace conformance; Go race detector as failing-schedule search",
 )
 
